@@ -34,7 +34,8 @@ class EngineError(Exception):
 # context
 
 _CTX = None
-SOLVER_TIMEOUT_MS = 20000
+SOLVER_TIMEOUT_MS = 60000
+MAX_TRIGGER_DEPTH = 2  # facts produced by triggers are themselves scanned for new applications this many levels deep
 
 
 def ctx() -> "Ctx":
@@ -93,7 +94,7 @@ class Ctx:
         self.triggers = {}  # decl name -> [fn(*args) -> z3 Bool | None]
         self.seen_apps = {}  # decl name -> [args tuple]
         self._seen_keys = set()
-        self._scanned = set()
+        self._scanned = {}
         self.pc_log = []  # literals asserted by decide()
         self.assume_log = []  # facts asserted by assume()
         self.loop_contracts = []  # pending loop contracts (consumed in order by symbolic range())
@@ -107,7 +108,7 @@ class Ctx:
                 {k: list(v) for k, v in self.triggers.items()},
                 {k: list(v) for k, v in self.seen_apps.items()},
                 set(self._seen_keys),
-                set(self._scanned),
+                dict(self._scanned),
                 len(self.pc_log),
                 len(self.assume_log),
             )
@@ -132,7 +133,7 @@ class Ctx:
             return
         fact = as_z3_bool(fact)
         self.solver.add(fact)
-        if depth < 6:
+        if depth < MAX_TRIGGER_DEPTH:
             self.instantiate(fact, depth=depth + 1)
 
     def instantiate(self, *exprs, depth=0):
@@ -142,7 +143,7 @@ class Ctx:
             i = e.get_id()
             if i in self._scanned:
                 continue
-            self._scanned.add(i)
+            self._scanned[i] = e  # keep the term alive: z3 recycles the ids of freed terms
             if z3.is_app(e):
                 d = e.decl()
                 if d.kind() == z3.Z3_OP_UNINTERPRETED and e.num_args() > 0:
